@@ -106,3 +106,42 @@ PROPS["C07"] = dict(
     technique="bounded-exhaustive enumeration (all small matrices, lifted and block rank profiles) on the real code against a reference null-space test",
     assumptions=["reference rank / product in harness/vx.c", "clang 14 ASan+UBSan builds: host, min-cache with/without SSE2"],
 )
+
+def _c04_runs(tier):
+    rs = []
+    for mode in ("small", "units", "dense"):
+        rs.append(Run(C(), "harness/p_c04.c", ["--mode=" + mode], group="host-" + mode))
+    rs.append(Run(C(sse2=0, **MIN), "harness/p_c04.c", ["--mode=dense"], group="host-dense"))
+    rs.append(Run(C(**MIN), "harness/p_c04.c", ["--mode=big"], group="min-big"))
+    if tier == "thorough":
+        rs.append(Run(C(**MIN), "harness/p_c04.c", ["--mode=units"], group="host-units"))
+    return rs
+
+PROPS["C04"] = dict(
+    level="exploration", runs=_c04_runs,
+    rule="variants {4 public wrappers x cutoffs, 4 _mzd_ cores, 2 Four-Russians cores x k in 0..8} x opposite-triangle fill {zeros, ones, pseudo-random} x T in {ALL unit-triangular matrices n <= 5 (6), a single off-diagonal entry at every position (n up to 66 / 130), full triangle, PR triangles of three densities} x n around word boundaries and the recursion thresholds of the build x B widths {1,2,63,64,65,129,n}; non-trivial = B non-zero; distinct = distinct (T, B, variant, parameter)",
+    level_text="Bounded-exhaustive differential exploration of the four triangular solves: complete enumeration of small triangular matrices and of single-entry positions, structured and dense triangles at every size class (base case <= 64, Four-Russians, recursion in the min-cache build), always with three different contents of the unused triangle; the oracle multiplies the named triangle by the result with the reference product.",
+    level_note="Bounded: n <= ~600; dense triangles are fixed pseudo-random patterns.",
+    technique="bounded-exhaustive enumeration on the real code against a reference product (T_named * X == B)",
+    assumptions=["reference product in harness/vx.c", "clang 14 ASan+UBSan builds: host, min-cache with/without SSE2"],
+)
+
+def _c05_runs(tier):
+    rs = []
+    for mode in ("gl", "ut", "lift", "bnd"):
+        rs.append(Run(C(), "harness/p_c05.c", ["--mode=" + mode, "--setbits=24"], group="host-" + mode))
+    rs.append(Run(C(sse2=0, **MIN), "harness/p_c05.c", ["--mode=bnd"], group="host-bnd"))
+    rs.append(Run(C(**MIN), "harness/p_c05.c", ["--mode=big"], group="min-big"))
+    rs.append(Run(C(sse2=0, **MIN), "harness/p_c05.c", ["--mode=big"], group="min-big"))
+    if tier == "thorough":
+        rs.append(Run(C(sse2=0, **MIN), "harness/p_c05.c", ["--mode=lift"], group="host-lift"))
+    return rs
+
+PROPS["C05"] = dict(
+    level="exploration", runs=_c05_runs,
+    rule="routines {mzd_inv_m4ri with NULL / supplied destination x k in 0..10, mzd_invert_naive with NULL / supplied destination, mzd_trtri_upper, mzd_trtri_upper_russian x k in 0..8} x inputs: ALL of GL_n(2) for n <= 4 (5), ALL unit upper triangular matrices n <= 6 (7), Kronecker lifts of all small unit-triangular / invertible cores by blocks {7,33,(64),65}, dense invertible / PR unit-triangular / rotation / full-triangle matrices at boundary sizes, and the recursive trtri branch in the min-cache build (n >= 363); non-trivial = n > 1; distinct = distinct (input, routine, k)",
+    level_text="Bounded-exhaustive differential exploration of the inversion routines: complete enumeration of the small general linear groups and of small unit-triangular matrices, their lifts across word boundaries, and boundary/threshold sizes; A*B = B*A = I and equality with the reference inverse are checked for every case.",
+    level_note="Bounded: complete enumeration only for n <= 4 (5) resp. 6 (7); larger inputs are lifts and fixed pseudo-random matrices up to n ~ 770.",
+    technique="bounded-exhaustive enumeration (all of GL_n(2) for small n, all small unit-triangular matrices, lifts) on the real code against a reference inverse",
+    assumptions=["reference product / inverse in harness/vx.c", "clang 14 ASan+UBSan builds: host, min-cache with/without SSE2"],
+)
